@@ -15,6 +15,7 @@ Construct classes (tag -> what the pinned tree does with it, see known_findings.
   enum        non-recursive variant constructed and matched                       balanced
   leafbox     one-cell boxed variant bound and dropped                            balanced
   tupbox      one-cell boxed variant inside a let-bound tuple next to plain elements   balanced
+  recbox      one-cell boxed variant as a field of a let-bound record next to plain fields balanced
   embed       let-bound value of a recursive variant type (payload elements of 1..3 words before / between / after the
               recursive references) embedded into other constructors in nested blocks, never matched or passed     balanced
   letcap      capturing closure bound by `let`                                    K1 leaks a closure per execution
@@ -27,7 +28,7 @@ import sys, os
 sys.path.insert(0, os.path.dirname(os.path.abspath(__file__)))
 from coregen import Rng
 
-BALANCED_TAGS = ["local0", "direct", "pipe", "gcall", "gcounter", "enum", "leafbox", "tupbox", "embed"]
+BALANCED_TAGS = ["local0", "direct", "pipe", "gcall", "gcounter", "enum", "leafbox", "tupbox", "recbox", "embed"]
 LEAKY_TAGS = ["letcap", "fnarg", "fnret", "box", "sched"]
 CONSTS = ["0.5", "1.0", "2.0", "3.0", "0.25", "1.5", "4.0", "10.0"]
 
@@ -139,6 +140,15 @@ def make_unit(r, n, tags):
         elems = [(f"Cons({arg}, Nil)" if ch == "b" else r.pick([c1, c2, up])) for ch in shape]
         first_f = shape.index("f")
         return Unit(tag, shape, [f"let t{n} = ({', '.join(elems)})", f"let {v} = t{n}.{first_f} + {up}"], v, needs=["List"])
+    if tag == "recbox":
+        # the same inside a RECORD bound by `let`: a boxed field next to plain fields, in every field order (fields are stored
+        # sorted by name; seeded C12e: `contains_boxed` of a record asked ALL fields to be boxed, so a mixed record was never released)
+        shape = r.pick(["fb", "bf", "ffb", "fbf", "bff", "bb"])
+        names = r.pick([["amp", "notes", "zed", "gain"], ["notes", "gain", "amp", "q"], ["z", "y", "x", "w"]])[:len(shape)]
+        elems = [f"{nm} = " + (f"Cons({arg}, Nil)" if ch == "b" else r.pick([c1, c2, up])) for nm, ch in zip(names, shape)]
+        plain = [nm for nm, ch in zip(names, shape) if ch == "f"]
+        use = f"r{n}.{plain[0]} + {up}" if plain else up
+        return Unit(tag, shape, [f"let r{n} = {{{', '.join(elems)}}}", f"let {v} = {use}"], v, needs=["List"])
     if tag == "embed":
         return make_embed_unit(r, n, tag, up, arg, v)
     if tag == "box" and r.chance(2, 5):
